@@ -374,10 +374,11 @@ func (u *Universe) verifyFunction(fn *ssa.Function, c *Contract) (fc *FuncCtx) {
 	fc.entryHeap = st.heap
 	fc.entryAlloc = st.allocBase
 	fr := &Frame{fn: fn, vals: map[ssa.Value]SVal{}, locals: map[string]SVal{}, variant: map[*ssa.BasicBlock][]*Term{}, contract: c}
-	for _, p := range fn.Params {
+	pnames := u.paramNames(fn)
+	for i, p := range fn.Params {
 		v := fc.freshOf(p.Name(), p.Type())
 		fr.vals[p] = SVal{Val: Val{T: v, Typ: p.Type()}}
-		fc.params[p.Name()] = Val{T: v, Typ: p.Type()}
+		fc.params[pnames[i]] = Val{T: v, Typ: p.Type()}
 		st.assume(fc.wellFormed(v, p.Type(), st.allocBase))
 		st.assume(fc.typeInvariant(v, p.Type()))
 		st.assume(fc.objInvFact(st.heap, st.allocBase, v, p.Type()))
@@ -389,6 +390,11 @@ func (u *Universe) verifyFunction(fn *ssa.Function, c *Contract) (fc *FuncCtx) {
 		fc.params[fv.Name()] = Val{T: v, Typ: fv.Type()}
 		fc.d.old[v.S] = true
 		st.assume(fc.wellFormed(v, fv.Type(), st.allocBase))
+	}
+	for _, p := range fn.Params { // current names too (replay planning), unless taken
+		if _, ok := fc.params[p.Name()]; !ok {
+			fc.params[p.Name()] = fr.vals[p].Val
+		}
 	}
 	st.frames = []*Frame{fr}
 	// requires
@@ -537,18 +543,11 @@ func (ex *Exec) localsEnv(st *State, fr *Frame, env *Env) {
 	}
 	// names: Alloc.Comment; duplicates get @k suffix in declaration order
 	count := map[string]int{}
-	var allocs []*ssa.Alloc
-	for _, b := range fr.fn.Blocks {
-		for _, in := range b.Instrs {
-			if a, ok := in.(*ssa.Alloc); ok && a.Comment != "" {
-				allocs = append(allocs, a)
-			}
-		}
-	}
-	sort.SliceStable(allocs, func(i, j int) bool { return allocs[i].Pos() < allocs[j].Pos() })
-	for _, a := range allocs {
-		count[a.Comment]++
-		name := a.Comment
+	allocs := namedAllocs(fr.fn)
+	lnames := ex.u.localNames(fr.fn, allocs)
+	for ai, a := range allocs {
+		name := lnames[ai]
+		count[name]++
 		var v SVal
 		var ok bool
 		if a.Heap {
